@@ -63,7 +63,8 @@ CLAIMED = {
         text='The min/max scan shared by every vertex-list class (translated with its if/elif) is proved, for any number of '
              'vertices, to return a box with min<=max that contains every vertex and whose four sides are each attained by a vertex; '
              'center is proved the midpoint; segment/ray boxes are proved to contain every point of the segment; the overlap '
-             'predicate is proved symmetric and equal to the exact interval gap test. Arcs (every angle pair), solids, 3D classes, '
+             'predicate is proved symmetric and equal to the exact interval gap test; bounding_domain_x / _y of a collection are proved '
+             'to be the hull of the member boxes (contain each, both ends attained by a member). Arcs (every angle pair), solids, 3D classes, '
              'collections and rotated frames are searched against dense samples / closed forms.',
         note='Trusted: Coq kernel, py2coq, harness. Arc boxes are translated and run in correspondence but their correctness is '
              'validated by sampling, not proved. Known finding: Arc3D partial-arc boxes.',
